@@ -177,3 +177,8 @@ Proof.
   - intros E; injection E as _ _ _ <- <-; exact H.
   - discriminate.
 Qed.
+
+(* the allocation switch of ReadRemaining, as regenerated, is Stream.fresh_pkt
+   for every first byte (a sweep over the 256 bytes) *)
+Lemma dispatch_is_fresh (x : byte) : dispatch_run (b2n x) = fresh_pkt (b2n x).
+Proof. destruct x; vm_compute; reflexivity. Qed.
